@@ -707,7 +707,10 @@ def main(ck):
                 after = [(0, ("attr", "antimeridian_face_indices"), []), (0, ("gdf", "exclude", None, "spatialpandas", True, False), []),
                          (0, ("poly", "split", None, True, False), []), (0, ("line", "exclude", None, True, False), [])]
                 run_history(ck, [pm], ["lonlat"], [(0, op, [])] + after, [pref], g0, None, stats)
-    chunk_count += shifted
+                # ... and the other way round: grid-level state read (and cached) BEFORE must not be what the conversion uses
+                before = [(0, ("attr", "antimeridian_face_indices"), []), (0, ("attr", "face_areas"), []), (0, ("attr", "bounds"), [])]
+                run_history(ck, [pm], ["lonlat"], before + [(0, op, []), (0, op, [])], [pref], g0, None, stats)
+    chunk_count += 2 * shifted
     ck.cov["evaluations"] += pair_count + triple_count + chunk_count
     # the correspondence broke: look for a concrete observable difference harder (longer histories)
     if ck.corr_failures and not ck.violations:
